@@ -50,7 +50,13 @@ def seed_names():
     return [nm for nm, _p, _t in S.SEEDS]
 
 
-def plan_jobs(props, tier, vseed, only_seeds=None, only_ops=None):
+def seed_names_tagged(tags):
+    import corpus.seeds as S
+
+    return [nm for nm, _p, t in S.SEEDS if t & set(tags)]
+
+
+def plan_jobs(props, tier, vseed, only_seeds=None, only_ops=None, cap_override=None):
     names = seed_names()
     if only_seeds:
         names = [n for n in names if n in only_seeds]
@@ -66,6 +72,8 @@ def plan_jobs(props, tier, vseed, only_seeds=None, only_ops=None):
         bounds = dict(size_max=4, idx_min=-2, idx_max=5, unroll_cap=12, stmt_budget=2500)
         cap = 30
         budget = 1500
+    if cap_override:
+        cap = cap_override
     jobs = []
     for n in names:
         jobs.append(dict(seed_name=n, props=sorted(props), tier=tier, rngseed=vseed, bounds=bounds, cap=cap, budget_s=budget, ops=only_ops, timeout_ms=20000 if tier == "quick" else 60000))
@@ -114,6 +122,23 @@ def chain_jobs(results, jobs_by_seed, n_chains, rng, depth_cap=1):
 def classify(prop, res, inst):
     """yield violation records of property `prop` from one instance"""
     base = {"property": prop, "seed": res["seed"], "op": inst["op"], "args": inst["args"], "enc": inst.get("enc"), "chain": res.get("chain"), "q_src": inst.get("q_src"), "p_src": res.get("p_src")}
+    if prop == "C10" and inst.get("c10_origin_mismatch"):
+        rec = dict(base)
+        rec.update(kind="origin", detail=inst["c10_origin_mismatch"], summary=f"call_eqv accepted a callee of another origin on {res['seed']}: {inst['c10_origin_mismatch']}", dedup=f"{res['seed']}|origin|{inst['c10_origin_mismatch']}")
+        yield rec
+    if prop == "C05":
+        if inst.get("c01") == "differ":
+            rec = dict(base)
+            rec.update(kind="semantics", label=inst.get("c01_label"), detail=inst.get("c01_detail"), cex=inst.get("c01_cex"), summary=f"replace{inst['args']} on {res['seed']} is not an instance of the callee: {inst.get('c01_detail')}", dedup=f"{res['seed']}|{inst['args']}|sem")
+            yield rec
+        for v in inst.get("c04_obl_violation", []) or []:
+            rec = dict(base)
+            rec.update(kind=v["kind"], where=v["where"], detail=v["replay"], cex=v["cex"], summary=f"replace{inst['args']} on {res['seed']}: call site violates {v['kind']}: {v['replay']}", dedup=f"{res['seed']}|{inst['args']}|{v['kind']}")
+            yield rec
+        if inst.get("c05_inline") == "differ":
+            rec = dict(base)
+            rec.update(kind="inline_back", detail=inst.get("c05_inline_detail"), cex=inst.get("c05_inline_cex"), inlined=inst.get("c05_inline_src"), summary=f"inlining the call inserted by replace{inst['args']} on {res['seed']} does not give back the program: {inst.get('c05_inline_detail')}", dedup=f"{res['seed']}|{inst['args']}|inline")
+            yield rec
     if prop in ("C01", "C10") and inst.get("c01") == "differ":
         rec = dict(base)
         rec.update(kind="semantics", label=inst.get("c01_label"), detail=inst.get("c01_detail"), cex=inst.get("c01_cex"), reported_cfg=inst.get("reported_cfg"),
@@ -150,7 +175,22 @@ def run_property(prop, tier, only_seeds=None, only_ops=None):
     t0 = time.time()
     vseed = seed_from_env()
     props = {prop}
-    jobs = plan_jobs(props, tier, vseed, only_seeds, only_ops)
+    cap_override = None
+    if prop == "C10" and not only_seeds:
+        only_seeds = seed_names_tagged(["config", "call"])
+        if tier == "quick":
+            only_seeds = [n for i, n in enumerate(only_seeds) if i % 2 == vseed % 2] + [n for n in only_seeds if n in ("s_call_cfg_scale", "s_cfg_call")]
+            only_seeds = list(dict.fromkeys(only_seeds))
+        cap_override = 14 if tier == "quick" else 40
+    if prop == "C05":
+        only_ops = ["replace"]
+        cap_override = 120 if tier == "quick" else 600
+        if not only_seeds:
+            only_seeds = seed_names()
+    jobs = plan_jobs(props, tier, vseed, only_seeds, only_ops, cap_override)
+    if prop in ("C05", "C10"):
+        # all selected seeds even in quick (the family is already restricted)
+        pass
     results = run_jobs(jobs)
     rng = random.Random(vseed)
     if not only_seeds or tier == "thorough":
@@ -182,7 +222,7 @@ def run_property(prop, tier, only_seeds=None, only_ops=None):
                     errors.append(f"{res['seed']} {inst['op']}{inst['args']}: {inst.get('why')}")
                 continue
             ops_acc[inst["op"]] += 1
-            if prop in ("C01", "C10"):
+            if prop in ("C01", "C10", "C05"):
                 if not inst.get("tracked_eqv"):
                     stats["not_tracked_equivalent"] += 1
                     continue
@@ -212,7 +252,7 @@ def run_property(prop, tier, only_seeds=None, only_ops=None):
             if len(samples) < 6 and inst.get("q_src") and (len(samples) < 3 or inst["op"] not in [s["op"] for s in samples]):
                 samples.append({"seed": res["seed"], "op": inst["op"], "args": inst["args"], "derived": inst["q_src"][:600], "verdict": inst.get("c01"), "reported_cfg": inst.get("reported_cfg"), "queries": inst.get("c01_queries")})
     accepted = stats["accepted"]
-    nontrivial = accepted - stats.get("c01_trivially_equal", 0) if prop in ("C01", "C10") else accepted
+    nontrivial = accepted - stats.get("c01_trivially_equal", 0) if prop in ("C01", "C10", "C05") else accepted
     code = rep.finish()
     harness_errs = stats.get("harness_error", 0)
     inconc = stats.get("inconclusive", 0)
